@@ -251,7 +251,7 @@ func checkC18(c *Ctx) {
 				}
 				if f := staticCallee(cc); f != nil && (f.String() == "bytes.HasPrefix" || f.String() == "bytes.Equal") {
 					for _, a := range cc.Args {
-						if strings.HasSuffix(roleOf(l, a, "", 0), "prefix") {
+						if valueName(a) == "prefix" {
 							found = true
 						}
 					}
@@ -340,6 +340,9 @@ func checkC18(c *Ctx) {
 				break
 			}
 			if iff := ifOf(id); iff != nil && edgeDominates(id, 0, in.Block()) {
+				if n := valueName(iff.Cond); n != "" {
+					return n
+				}
 				return roleOf(l, iff.Cond, "", 0)
 			}
 		}
